@@ -207,6 +207,8 @@ def run_engine(res, prep, scripts, oracle, tag, env_extra=None, extra=None, faul
     h = rt_lib.build_harness(prep.bdir)
     drv = engine.exe("drv_rt")
     _, model, merr = engine.run_lines(drv, scripts)
+    sched = bool(env_extra and "RT_SHORTSCHED" in env_extra)
+    wlogs = []
     with Scratch(tag) as d:
         CH = 40
         for base in range(0, len(scripts), CH):
@@ -234,6 +236,10 @@ def run_engine(res, prep, scripts, oracle, tag, env_extra=None, extra=None, faul
                     moc, mbytes = m, b""
                 else:
                     moc, mbytes, _ = rt_lib.expand_model(m)
+                if sched and k < len(out) and " wlog=" in out[k] and not outcome.startswith("crash"):
+                    wl = out[k].split(" wlog=", 1)[1].split(" ")[0].strip(",")
+                    nfl = dict(p.split("=", 1) for p in m.split(" ")[1:] if "=" in p).get("nflush") if m not in ("bad-op", "<missing>") else None
+                    wlogs.append((sc, wl.split(",") if wl else [], nfl, len(data), outcome))
                 if outcome.startswith("crash"):
                     found = True
                     res.violation(f"{tag}:crash:" + sc[:80], f"libovni crashed ({outcome}) on script", sc + "\n# " + err[-800:])
@@ -265,6 +271,23 @@ def run_engine(res, prep, scripts, oracle, tag, env_extra=None, extra=None, faul
                 if os.path.isdir(os.path.join(sub, f"s{k}")):
                     import shutil
                     shutil.rmtree(os.path.join(sub, f"s{k}"), ignore_errors=True)
+    if wlogs:
+        # the call log of the real write_evbuf loops through the model's `WriteLoop.replay`
+        # (Props/C01Write.replay_accepts): each request is what the loop still owes, the
+        # number of loops is the model's number of flush_evbuf calls, the bytes are the file's
+        _, verd, _ = engine.run_lines(drv, ["wlog " + " ".join(w[1]) for w in wlogs])
+        for (sc, pairs, nfl, nbytes, outcome), v in zip(wlogs, verd + ["<missing>"] * len(wlogs)):
+            ncalls = len(pairs)
+            short = sum(1 for p in pairs if ">" in p and p.split(">")[1] not in ("-", p.split(">")[0]))
+            res.dist("wloop:calls:%s" % ("0" if ncalls == 0 else "1-3" if ncalls <= 3 else "4-15" if ncalls <= 15 else "16+"))
+            res.dist("wloop:short-answers:%s" % ("0" if short == 0 else "1-3" if short <= 3 else "4+"))
+            if outcome.startswith("returned"):
+                want = "ok loops=%s bytes=%d" % (nfl, nbytes)
+                if v != want:
+                    res.cov.setdefault("correspondence_breaks", []).append(
+                        {"script": sc[:300], "what": "write loop: call log replays as '%s', expected '%s' (log %s)"
+                         % (v, want, " ".join(pairs)[:300])})
+            res.dist("wloop:verdict:" + v.split(" ")[0])
     return found
 
 
@@ -286,9 +309,9 @@ def check(res, tier, replay=None):
                        "each runs on the real libovni (ASan+UBSan, interposed clock) and on the Lean model; the stream file "
                        "must equal the model's predicted bytes and satisfy the independent C01 oracle. non-trivial = at "
                        "least one event reached the disk; distinct by script text")
-    res.assumptions = ["clock_gettime is replaced by a deterministic counter", "write() completes (faults are C10's subject)"]
+    res.assumptions = ["clock_gettime is replaced by a deterministic counter", "in Props/C01 a flushed buffer reaches the file whole; Props/C01Write and the short-write passes cover every split of it (errors are C10's subject)"]
     prep = engine.prepare(res, drivers=("drv_rt",))
-    proved = vcommon.prove(res, "C01")
+    proved = vcommon.prove(res, ["C01", "C01Write"])
     found = False
     if prep.bdir and prep.driver_ok:
         r = vcommon.rng("c01")
@@ -302,6 +325,14 @@ def check(res, tier, replay=None):
                 res.dist("pass:short-write-%d" % n)
                 found = run_engine(res, prep, sub, oracle_c01, "c01-short%d" % n,
                                    env_extra={"RT_FAULT": "write:%d:short" % n}) or found
+            # ... and under whole short-write SCHEDULES: every write() on the stream transfers a
+            # pseudo-random part (1 .. n bytes) of what it was asked; file byte-identical, and the
+            # call log must replay through the model of the loop (Props/C01Write)
+            for sd in ((1, 2) if tier == "quick" else range(1, 9)):
+                seed = vcommon.rng("c01-sched%d" % sd).randrange(1, 2 ** 31)
+                res.dist("pass:short-schedule")
+                found = run_engine(res, prep, sub, oracle_c01, "c01-sched%d" % sd,
+                                   env_extra={"RT_SHORTSCHED": str(seed)}) or found
             # ... and when the N-th write() is interrupted (EINTR): the runtime may abort with a diagnostic,
             # but if it returns the file must be byte-identical
             for n in ((1, 2, 3) if tier == "quick" else range(1, 8)):
